@@ -61,14 +61,25 @@ func init() {
 		e.P("/-- onPlay: `s.status = statusPlaying` is guarded by `err == nil && resp.StatusCode == StatusOK` -/")
 		e.P("def onPlayPlayingNeedsOk : Bool := %s", LeanBool(needsOk))
 		e.P("/-- onPlay / onRecord: the refusal ladder (condition, status constant) in source order -/")
-		e.P("def onPlayLadder : List (String × String) := %s", ladder(e, FuncDecl(sess, "Session", "onPlay"), "onPlayLadder"))
-		e.P("def onRecordLadder : List (String × String) := %s", ladder(e, FuncDecl(sess, "Session", "onRecord"), "onRecordLadder"))
-		e.P("def onDescribeLadder : List (String × String) := %s", ladder(e, FuncDecl(sess, "Session", "onDescribe"), "onDescribeLadder"))
-		e.P("def onAnnounceLadder : List (String × String) := %s", ladder(e, FuncDecl(sess, "Session", "onAnnounce"), "onAnnounceLadder"))
-		e.P("def onSetupLadder : List (String × String) := %s", ladder(e, FuncDecl(sess, "Session", "onSetup"), "onSetupLadder"))
-		e.P("def wspOnSetupLadder : List (String × String) := %s", ladder(e, FuncDecl(wsp, "Session", "onSetup"), "wspOnSetupLadder"))
-		e.P("def wspOnPlayLadder : List (String × String) := %s", ladder(e, FuncDecl(wsp, "Session", "onPlay"), "wspOnPlayLadder"))
-		e.P("def wspOnDescribeLadder : List (String × String) := %s", ladder(e, FuncDecl(wsp, "Session", "onDescribe"), "wspOnDescribeLadder"))
+		e.P("def onPlayLadder : List (String × String × String) := %s", ladder(e, FuncDecl(sess, "Session", "onPlay"), "onPlayLadder"))
+		e.P("def onRecordLadder : List (String × String × String) := %s", ladder(e, FuncDecl(sess, "Session", "onRecord"), "onRecordLadder"))
+		e.P("def onDescribeLadder : List (String × String × String) := %s", ladder(e, FuncDecl(sess, "Session", "onDescribe"), "onDescribeLadder"))
+		e.P("def onAnnounceLadder : List (String × String × String) := %s", ladder(e, FuncDecl(sess, "Session", "onAnnounce"), "onAnnounceLadder"))
+		e.P("def onSetupLadder : List (String × String × String) := %s", ladder(e, FuncDecl(sess, "Session", "onSetup"), "onSetupLadder"))
+		e.P("def wspOnSetupLadder : List (String × String × String) := %s", ladder(e, FuncDecl(wsp, "Session", "onSetup"), "wspOnSetupLadder"))
+		e.P("def wspOnPlayLadder : List (String × String × String) := %s", ladder(e, FuncDecl(wsp, "Session", "onPlay"), "wspOnPlayLadder"))
+		e.P("def wspOnDescribeLadder : List (String × String × String) := %s", ladder(e, FuncDecl(wsp, "Session", "onDescribe"), "wspOnDescribeLadder"))
+
+		// newResponse: the header fields every response gets; who else touches them; where the id is assigned
+		e.P("/-- rtsp newResponse: the `resp.Header.Set(k, v)` statements of its body, in order -/")
+		e.P("def rtspNewResponseSets : List (String × String) := %s", headerSets(e, FuncDecl(sess, "Session", "newResponse"), "rtspNewResponseSets"))
+		e.P("/-- wsp newResponse: the same -/")
+		e.P("def wspNewResponseSets : List (String × String) := %s", headerSets(e, FuncDecl(wsp, "Session", "newResponse"), "wspNewResponseSets"))
+		e.P("/-- every other statement of the session files that sets or deletes the CSeq / Session header of a response, or assigns `lsession` -/")
+		e.P("def respIdentityTouched : List String := %s", LeanStrList(identityTouched(e, map[string]*ast.File{
+			"service/rtsp/session.go": sess, "service/rtsp/session_roles.go": roles, "service/wsp/session.go": wsp})))
+		e.P("/-- how often each handler-side function obtains its response from newResponse: (function, count) -/")
+		e.P("def newResponseCalls : List (String × Nat) := %s", newRespCalls(map[string]*ast.File{"rtsp": sess, "wsp": wsp}))
 
 		// roles: tracked calls in source order
 		for _, fn := range []string{"asTCPConsumer", "asUDPConsumer", "asMulticastConsumer", "asTCPPusher"} {
@@ -442,7 +453,9 @@ func onPlayFacts(e *Emitter, fd *ast.FuncDecl) (again, needsOk bool) {
 }
 
 // ladder: every `if cond { … resp.StatusCode = X … }` of the function, in source order
-// (nested ones included), as (condition text, status constant)
+// (nested ones included), as (condition text, status constant, how the rung ends): the last
+// statement of the rung's block when it leaves the function (`return`, `return err`, …), "-" when
+// control falls out of the block ("else" when an else branch is skipped that way)
 func ladder(e *Emitter, fd *ast.FuncDecl, what string) string {
 	if fd == nil {
 		e.Unknown(what)
@@ -459,7 +472,16 @@ func ladder(e *Emitter, fd *ast.FuncDecl, what string) string {
 			}
 		}
 		if code != "" {
-			rows = append(rows, fmt.Sprintf("(%s, %s)", LeanStr(strings.Join(strings.Fields(Src(ifs.Cond)), " ")), LeanStr(code)))
+			end := "-"
+			if ifs.Else != nil {
+				end = "else"
+			}
+			if n := len(ifs.Body.List); n > 0 {
+				if ret, ok := ifs.Body.List[n-1].(*ast.ReturnStmt); ok {
+					end = strings.Join(strings.Fields(Src(ret)), " ")
+				}
+			}
+			rows = append(rows, fmt.Sprintf("(%s, %s, %s)", LeanStr(strings.Join(strings.Fields(Src(ifs.Cond)), " ")), LeanStr(code), LeanStr(end)))
 		}
 		visit(ifs.Body.List)
 		switch el := ifs.Else.(type) {
@@ -484,6 +506,111 @@ func ladder(e *Emitter, fd *ast.FuncDecl, what string) string {
 		}
 	}
 	visit(fd.Body.List)
+	return "[" + strings.Join(rows, ", ") + "]"
+}
+
+// headerSets: the top-level `resp.Header.Set(k, v)` statements of newResponse
+func headerSets(e *Emitter, fd *ast.FuncDecl, what string) string {
+	if fd == nil {
+		e.Unknown(what)
+		return "[]"
+	}
+	var rows []string
+	for _, st := range fd.Body.List {
+		es, ok := st.(*ast.ExprStmt)
+		if !ok {
+			continue
+		}
+		c, ok := es.X.(*ast.CallExpr)
+		if !ok || Src(c.Fun) != "resp.Header.Set" || len(c.Args) != 2 {
+			continue
+		}
+		rows = append(rows, fmt.Sprintf("(%s, %s)", LeanStr(stripPkg(Src(c.Args[0]))), LeanStr(strings.ReplaceAll(Src(c.Args[1]), "rtsp.", ""))))
+	}
+	return "[" + strings.Join(rows, ", ") + "]"
+}
+
+// identityTouched: outside newResponse / newSession, every Header.Set / Header.Del of FieldCSeq or
+// FieldSession on something that is not a request the session itself builds, and every write of lsession
+func identityTouched(e *Emitter, files map[string]*ast.File) []string {
+	var out []string
+	var names []string
+	for n := range files {
+		names = append(names, n)
+	}
+	sortStrings(names)
+	for _, n := range names {
+		f := files[n]
+		if f == nil {
+			e.Unknown("respIdentityTouched:" + n)
+			continue
+		}
+		for _, d := range f.Decls {
+			fd, ok := d.(*ast.FuncDecl)
+			if !ok || fd.Body == nil {
+				continue
+			}
+			fn := fd.Name.Name
+			ast.Inspect(fd.Body, func(x ast.Node) bool {
+				switch v := x.(type) {
+				case *ast.CallExpr:
+					if sel, ok := v.Fun.(*ast.SelectorExpr); ok && (sel.Sel.Name == "Set" || sel.Sel.Name == "Del" || sel.Sel.Name == "Add") &&
+						strings.HasSuffix(Src(sel.X), ".Header") && len(v.Args) > 0 {
+						k := stripPkg(Src(v.Args[0]))
+						if (k == "FieldCSeq" || k == "FieldSession") && fn != "newResponse" {
+							out = append(out, n+":"+fn+": "+strings.Join(strings.Fields(Src(v)), " "))
+						}
+					}
+				case *ast.AssignStmt:
+					for _, l := range v.Lhs {
+						if strings.HasSuffix(Src(l), ".lsession") {
+							out = append(out, n+":"+fn+": "+strings.Join(strings.Fields(Src(v)), " "))
+						}
+					}
+				case *ast.KeyValueExpr:
+					if Src(v.Key) == "lsession" && fn != "newSession" {
+						out = append(out, n+":"+fn+": "+strings.Join(strings.Fields(Src(v)), " "))
+					}
+				}
+				return true
+			})
+		}
+	}
+	return out
+}
+
+func sortStrings(a []string) {
+	for i := 1; i < len(a); i++ {
+		for j := i; j > 0 && a[j] < a[j-1]; j-- {
+			a[j], a[j-1] = a[j-1], a[j]
+		}
+	}
+}
+
+// newRespCalls: which functions build a response, and how many times
+func newRespCalls(files map[string]*ast.File) string {
+	var rows []string
+	for _, k := range []string{"rtsp", "wsp"} {
+		f := files[k]
+		if f == nil {
+			continue
+		}
+		for _, d := range f.Decls {
+			fd, ok := d.(*ast.FuncDecl)
+			if !ok || fd.Body == nil {
+				continue
+			}
+			n := 0
+			for _, c := range callsIn(fd.Body.List) {
+				if c == "s.newResponse" {
+					n++
+				}
+			}
+			if n > 0 {
+				rows = append(rows, fmt.Sprintf("(%s, %d)", LeanStr(k+":"+fd.Name.Name), n))
+			}
+		}
+	}
 	return "[" + strings.Join(rows, ", ") + "]"
 }
 
